@@ -49,7 +49,7 @@ function genProgram (rng, opts = {}) {
     planted.push(v)
     return spell(rng, v)
   }
-  const pad = () => rng.bool(0.3) ? rng.pick(['/* ñ */ ', '/* 😀 */ ', '\t', '    ', '/*é€*/']) : ''
+  const pad = () => rng.bool(0.35) ? rng.pick(['/* ñ */ ', '/* 😀 */ ', '\t', '    ', '/*é€*/', '/* 漢字ＡＢ */ ', '/* a\u200bb\u0301 */ ', '\t\t  \t']) : ''
   const nl = opts.crlf ? '\r\n' : '\n'
   if (opts.module) lines.push(`import def from ${lit()}`)
   if (rng.bool(0.3)) lines.push(`${rng.pick(["'use strict'", '"use strict"', "'a directive long enough'"])}`)
